@@ -99,6 +99,7 @@ def tla_cfg(spec):
     sfree = list(spec.get("sfree", [1] + [0] * (m - 1))) + [0] * 3
     return {"n": n, "m": m, "k": spec.get("k", 1), "bases": [org for org, _ in regs], "dir": spec["dir"],
             "cbar": int(spec["kind"] == "crossbar"), "mfree": mfree[:3], "sfree": sfree[:3],
+            "earlyw": int(spec.get("earlyw", 0)), "xslave": int(spec.get("xslave", 0)),
             "timeout": int(spec.get("timeout") or 0)}
 
 
@@ -140,19 +141,27 @@ def configs(tier, prop="C08"):
         L.append((spec, tla_cfg(spec)))
     if prop == "C08":
         for d in ("w", "r"):
-            add(kind="p2p", n=1, m=1, dir=d, k=2)
             add(kind="decoder", n=1, m=2, dir=d, k=2, sfree=[1, 1])
             add(kind="arbiter", n=2, m=1, dir=d, k=2, mfree=[1, 1])
             add(kind="shared", n=2, m=2, dir=d, k=1)
-            add(kind="shared", n=2, m=2, dir=d, k=1, mfree=[0, 1], sfree=[0, 1])
-            add(kind="crossbar", n=2, m=2, dir=d, k=1)
+            if tier == "thorough":
+                add(kind="p2p", n=1, m=1, dir=d, k=2, earlyw=1, xslave=1)
+                add(kind="crossbar", n=2, m=2, dir=d, k=1, mfree=[0, 1], sfree=[0, 1])
+        # the two behaviours the property lists explicitly and the interconnect does not support
+        add(kind="decoder", n=1, m=2, dir="w", k=1, sfree=[1, 0], earlyw=1, nofollowup=True)          # data before address
+        add(kind="decoder", n=1, m=2, dir="r", k=2, sfree=[1, 0], xslave=1, nofollowup=True)          # other slave while outstanding
         if tier == "thorough":
             for d in ("w", "r"):
                 add(kind="shared", n=2, m=2, dir=d, k=2)
+                add(kind="shared", n=2, m=2, dir=d, k=1, mfree=[0, 1], sfree=[0, 1])
+                add(kind="crossbar", n=2, m=2, dir=d, k=1)
                 add(kind="crossbar", n=2, m=2, dir=d, k=2, mfree=[0, 1], sfree=[1, 0])
                 add(kind="shared", n=2, m=2, dir=d, k=1, mfree=[1, 1], sfree=[1, 0])
                 add(kind="shared", n=3, m=2, dir=d, k=1)
                 add(kind="crossbar", n=3, m=3, dir=d, k=1, mfree=[0, 0, 0], sfree=[1, 0, 0])
                 add(kind="arbiter", n=3, m=1, dir=d, k=2, mfree=[1, 0, 1])
                 add(kind="decoder", n=1, m=3, dir=d, k=2, sfree=[1, 1, 0])
+            add(kind="shared", n=2, m=2, dir="w", k=1, earlyw=1, nofollowup=True)
+            add(kind="crossbar", n=2, m=2, dir="w", k=1, earlyw=1, mfree=[1, 0], sfree=[1, 0], nofollowup=True)
+            add(kind="shared", n=2, m=2, dir="r", k=2, xslave=1, nofollowup=True)
     return L
